@@ -94,12 +94,20 @@ def mentioned_ops(fn):
         for x in ast.walk(node):
             if isinstance(x, ast.Constant) and isinstance(x.value, str):
                 out.add(x.value)
+            elif isinstance(x, ast.Constant) and type(x.value) is int and 9 <= x.value <= 128:
+                out.add(("width-literal", x.value))
             elif isinstance(x, ast.Name) and (x.id in defs or x.id in consts) and x.id != "_all_simplifiers":
                 todo.append(x.id)
             elif isinstance(x, ast.Attribute) and isinstance(x.value, ast.Name) and x.value.id == "operator":
                 out.add(x.attr)
     _cache[key] = out
     return out
+
+
+def mentioned_widths(fn):
+    """integer literals between 9 and 128 that `fn` and what it reaches mention: widths (or width sums) the code treats
+    specially, added to the enumerated widths of that rewriter on every run"""
+    return sorted(x[1] for x in mentioned_ops(fn) if isinstance(x, tuple))
 
 
 # ---- argument generators per operation ------------------------------------------------------------
@@ -275,9 +283,40 @@ def build_real(d, names=None):
     raise NotImplementedError(sort)
 
 
+def concretized(d):
+    """the described expression with every undecided leaf replaced by the constant the counter-model gives it: a second,
+    fully legitimate input for the real code when the symbolic instantiation does not reproduce (e.g. because the
+    model relies on is_true/is_false answering for two leaves that happen to be equal)"""
+    if isinstance(d, list):
+        return [concretized(x) for x in d]
+    if not isinstance(d, dict):
+        return d
+    d = dict(d)
+    if "leaf" in d and d.get("sort", [None])[0] in ("bv", "bool"):
+        d["symbolic"] = False
+    if "args" in d:
+        d["args"] = [concretized(a) for a in d["args"]]
+    return d
+
+
 def replay_rewriter(task, failure):
     """Call the real rewriter (and the real public operator) on the counter-model's expression and
     decide equivalence with the unrewritten node by z3."""
+    r = _replay_rewriter(task, failure)
+    if not r.get("reproduced"):
+        f2 = dict(failure)
+        f2["witness"] = dict(failure["witness"], args=concretized(failure["witness"]["args"]))
+        try:
+            r2 = _replay_rewriter(task, f2)
+        except Exception:  # noqa
+            return r
+        if r2.get("reproduced"):
+            r2["text"] = "(leaves instantiated with the counter-model's constants) " + r2["text"]
+            return r2
+    return r
+
+
+def _replay_rewriter(task, failure):
     import claripy
     import z3 as _z3
     from claripy.ast import BV, Bool
